@@ -46,7 +46,9 @@ pub fn sample_val(ty: &Ty, cfg: ValCfg, seed: u64) -> Val {
     s[..8].copy_from_slice(&seed.to_le_bytes());
     s[8..16].copy_from_slice(&crate::fnv64(ty.render().as_bytes()).to_le_bytes());
     let mut r = TestRunner::new_with_rng(Config { failure_persistence: None, ..Config::default() }, TestRng::from_seed(RngAlgorithm::ChaCha, &s));
-    val_strategy(ty, cfg).new_tree(&mut r).expect("value").current()
+    // a default is an expression, not decoded data: spell nested transient fields with their declared defaults so
+    // that 'what decoding yields' and 'what the default expression yields' coincide
+    crate::val::with_transient_defaults(ty, &val_strategy(ty, cfg).new_tree(&mut r).expect("value").current())
 }
 
 pub fn history_spec_strategy(max_init: usize, max_steps: usize) -> BoxedStrategy<HistorySpec> {
@@ -57,7 +59,7 @@ pub fn history_spec_strategy(max_init: usize, max_steps: usize) -> BoxedStrategy
     (init, steps, any::<u64>()).prop_map(|(init, steps, seed)| HistorySpec { init, steps, seed }).boxed()
 }
 
-const DEFAULT_CFG: ValCfg = ValCfg { non_bmp: false, max_len: 3, long: false };
+const DEFAULT_CFG: ValCfg = ValCfg { non_bmp: false, max_len: 3, long: false, small_alphabet: false, transient_ctors: false };
 
 fn is_serialized(f: &Field) -> bool {
     f.transient.is_none()
@@ -462,3 +464,127 @@ pub fn fixed_decls() -> Vec<Arc<Decl>> {
     }));
     out
 }
+
+// ------------------------------------------------------------------------------------------------
+// the compiled batch (E2): a deterministic function of a seed, shared by vgen (source) and vcheck (model)
+
+pub struct Batch {
+    /// histories[h][v]: struct `H{h}V{v}`
+    pub histories: Vec<Vec<Arc<Decl>>>,
+    /// histories whose menu contains DeduplicatedString (excluded from cross-version checks)
+    pub dedup_histories: Vec<bool>,
+    /// families[n] = [E{n}A, E{n}B, E{n}C]
+    pub families: Vec<Vec<Arc<Decl>>>,
+    pub specials: Vec<Arc<Decl>>,
+}
+
+impl Batch {
+    pub fn all(&self) -> Vec<Arc<Decl>> {
+        let mut v: Vec<Arc<Decl>> = Vec::new();
+        // dependency order: a declaration only refers to declarations generated before it
+        v.extend(self.specials.iter().cloned());
+        let nh = self.histories.len();
+        let nf = self.families.len();
+        for i in 0..nh.max(nf) {
+            if i < nf {
+                v.extend(self.families[i].iter().cloned());
+            }
+            if i < nh {
+                v.extend(self.histories[i].iter().cloned());
+            }
+        }
+        v
+    }
+    pub fn hash(&self) -> u64 {
+        crate::hash_json(&self.all())
+    }
+}
+
+fn draw<T: std::fmt::Debug>(s: &BoxedStrategy<T>, r: &mut TestRunner) -> T {
+    s.new_tree(r).expect("draw").current()
+}
+
+pub fn static_menu(with_dedup: bool) -> Vec<Ty> {
+    dynamic_menu(with_dedup)
+}
+
+pub fn compiled_batch(seed: u64, n_hist: usize, n_fam: usize) -> Batch {
+    let mut s = [0u8; 32];
+    s[..8].copy_from_slice(&seed.to_le_bytes());
+    s[8] = 0xE2;
+    let mut r = TestRunner::new_with_rng(Config { failure_persistence: None, ..Config::default() }, TestRng::from_seed(RngAlgorithm::ChaCha, &s));
+    let mut nested: Vec<Ty> = Vec::new();
+    let a = |t: Ty| Arc::new(t);
+    // ---- specials
+    let mut specials: Vec<Arc<Decl>> = Vec::new();
+    let f = |n: &str, t: Ty| Field::new(n, t);
+    specials.push(struct_decl("UnitU", &Record { fields: vec![], steps: vec![] }));
+    specials.push(struct_decl("EmptyBraces", &Record { fields: vec![], steps: vec![] }));
+    specials.push(struct_decl(
+        "OnlyTransient",
+        &Record { fields: vec![Field { name: "t".into(), ty: Ty::U32, transient: Some(Val::Int(9)), opt_spelling: 0 }, Field { name: "u".into(), ty: Ty::Str, transient: Some(Val::str("dflt")), opt_spelling: 0 }], steps: vec![] },
+    ));
+    specials.push(struct_decl("RecList", &Record { fields: vec![f("v", Ty::U8), f("next", Ty::Option(a(Ty::Box(a(Ty::Rec("RecList".into()))))))], steps: vec![] }));
+    specials.push(struct_decl("RecTree", &Record { fields: vec![f("label", Ty::Str), f("kids", Ty::Vec(a(Ty::Rec("RecTree".into()))))], steps: vec![Step::Added { name: "label".into(), default: Val::str("") }] }));
+    specials.push(Arc::new(Decl {
+        name: "RecEnum".into(),
+        body: DeclBody::Enum {
+            sorted: false,
+            variants: vec![
+                Variant { name: "Leaf".into(), shape: Shape::Tuple, transient: false, record: Record { fields: vec![f("field0", Ty::U8)], steps: vec![] } },
+                Variant { name: "Node".into(), shape: Shape::Struct, transient: false, record: Record { fields: vec![f("l", Ty::Box(a(Ty::Rec("RecEnum".into())))), f("r", Ty::Option(a(Ty::Box(a(Ty::Rec("RecEnum".into()))))))], steps: vec![] } },
+            ],
+        },
+    }));
+    // the documented limit: 255 entries in the evolution table = 254 user steps
+    {
+        let mut steps = Vec::new();
+        for i in 0..126 {
+            steps.push(Step::Added { name: format!("g{i}"), default: Val::Int(i as i128) });
+            steps.push(Step::Removed { name: format!("g{i}") });
+        }
+        steps.push(Step::Added { name: "last".into(), default: Val::str("end") });
+        steps.push(Step::MadeOptional { name: "first".into() });
+        specials.push(struct_decl("Max254", &Record { fields: vec![f("first", Ty::Option(a(Ty::U16))), f("last", Ty::Str)], steps }));
+    }
+    // ---- histories and families, interleaved so that later ones can nest earlier ones
+    let mut histories = Vec::new();
+    let mut dedup_histories = Vec::new();
+    let mut families = Vec::new();
+    let hs = history_spec_strategy(5, 6);
+    let es = enum_spec_strategy();
+    for i in 0..n_hist.max(n_fam) {
+        if i < n_fam {
+            let spec = draw(&es, &mut r);
+            let mut menu = static_menu(true);
+            menu.extend(nested.iter().cloned());
+            let fam = build_enum_family(&format!("E{i}"), &spec, &menu);
+            if i % 2 == 0 {
+                nested.push(Ty::Adt(fam[0].clone()));
+                nested.push(Ty::Vec(a(Ty::Adt(fam[2].clone()))));
+            }
+            families.push(fam);
+        }
+        if i < n_hist {
+            let spec = draw(&hs, &mut r);
+            let with_dedup = i % 4 == 1;
+            let mut menu = static_menu(with_dedup);
+            // nested declarations: they carry their own headers (possibly with removed names): keep them out of the
+            // histories that are read across versions with DeduplicatedString in play
+            menu.extend(nested.iter().cloned());
+            let versions = build_history(&spec, &menu);
+            let decls: Vec<Arc<Decl>> = versions.iter().enumerate().map(|(v, rec)| struct_decl(&format!("H{i}V{v}"), rec)).collect();
+            if i % 3 == 0 {
+                let last = decls.last().unwrap().clone();
+                nested.push(Ty::Adt(last.clone()));
+                nested.push(Ty::Option(a(Ty::Adt(last.clone()))));
+                nested.push(Ty::Vec(a(Ty::Adt(last))));
+            }
+            histories.push(decls);
+            dedup_histories.push(with_dedup);
+        }
+    }
+    Batch { histories, dedup_histories, families, specials }
+}
+
+pub const QUICK_BATCH: (u64, usize, usize) = (20260928, 36, 12);
